@@ -64,4 +64,33 @@ def expSeries {W} [Add W] (T : W → W) (div : W → Nat → W) (terms : Nat) (w
     | fuel + 1 => let temp' := div (T temp) i; go fuel (i + 1) temp' (acc + temp')
   go (terms - 1) 2 t1 (w + t1)
 
+/-- outcome of `_multislice_exponential_series` -/
+inductive SeriesOutcome where
+  | converged (terms : Nat)     -- `break`: the last term fell below the tolerance
+  | diverged (term : Nat)       -- `raise DivergedError()`
+  | notConverged                -- `raise NotConvergedError(...)` after `max_terms`
+deriving Repr, DecidableEq
+
+/-- the convergence logic of `_multislice_exponential_series` on a wave that is a superposition of eigen-modes of the series
+operator: mode `k` has amplitude modulus `a_k ≥ 0` and the operator multiplies it by a number of modulus `y_k ≥ 0` (in vacuum a
+purely imaginary number), so the `i`-th term has modulus `a_k y_k^i / i!` and `xp.abs(temp).sum()` is their sum.
+The loop tests only the terms `i = 2 … max_terms`: first the tolerance (`break`), then `temp_amplitude > initial_amplitude` (raise). -/
+def seriesOutcome (modes : List (Rat × Rat)) (tol : Rat) (maxTerms : Nat) : SeriesOutcome :=
+  let initial := (modes.map (·.1)).sum
+  let rec go (fuel i : Nat) (temp : List (Rat × Rat)) : SeriesOutcome :=
+    match fuel with
+    | 0 => .notConverged
+    | fuel + 1 =>
+      let temp' := temp.map fun m => (m.1 * m.2 / (i : Rat), m.2)
+      let amp := (temp'.map (·.1)).sum
+      if amp / initial ≤ tol then .converged i
+      else if amp > initial then .diverged i
+      else go fuel (i + 1) temp'
+  go (maxTerms - 1) 2 (modes.map fun m => (m.1 * m.2, m.2))
+
+/-- the padded computation of `_apply_boundary`: with `padding = n + 1` wrap-padded pixels on each side, output pixel `i` and
+stencil offset `k` read padded index `padding + i + k`, which holds the value of pixel `(i + k) mod h` -/
+def paddedIndex (len : Int) (i k : Int) : Int :=
+  stencilPadding (stencilHalfWidth len) + i + k
+
 end AbtemVerif.FiniteDiff
